@@ -24,6 +24,7 @@ package remote
 
 import (
 	"context"
+	"errors"
 	"fmt"
 	"io"
 	"regexp"
@@ -386,9 +387,20 @@ func (b *blob) fetchRange(allData map[region]io.Writer, opts *options) error {
 
 	key := makeSyncKey(allData)
 	fetched := make(map[region]bool)
+	var fetchedByMe bool
 	_, err, shared := b.fetchedRegionGroup.Do(key, func() (any, error) {
+		fetchedByMe = true
 		return nil, b.fetchRegions(allData, fetched, opts)
 	})
+
+	// The fetch is shared with the callers that wanted the same regions and it runs
+	// with the context of the one that started it. If that one gave up (e.g. a
+	// background fetch cancelled by a prioritized task) while our own context is
+	// still alive, that isn't our failure: fetch by ourselves.
+	if err != nil && shared && !fetchedByMe && (errors.Is(err, context.Canceled) || errors.Is(err, context.DeadlineExceeded)) &&
+		(opts.ctx == nil || opts.ctx.Err() == nil) {
+		return b.fetchRange(allData, opts)
+	}
 
 	// When unblocked try to read from cache in case if there were no errors
 	// If we fail reading from cache, fetch from remote registry again
